@@ -168,6 +168,23 @@ def sim_matrix(case):
 
 def build_net(grid, S, directed, non_local, threshold=None, link_density=None):
     from pyunicorn.climate import ClimateNetwork
+    n = len(S)
+    import zlib
+    if n >= 2 and zlib.crc32(np.ascontiguousarray(
+            S, dtype=np.float64).tobytes()) % 4 == 0:
+        # a quarter of the matrices: the same similarity matrix over two
+        # layers (CoupledClimateNetwork thresholds the whole matrix alike)
+        from pyunicorn.climate import CoupledClimateNetwork
+        from pyunicorn.core import GeoGrid
+        lat = np.array(grid.lat_sequence(), dtype=np.float64)
+        lon = np.array(grid.lon_sequence(), dtype=np.float64)
+        k = 1 + zlib.crc32(lat.tobytes()) % (n - 1)
+        t = np.arange(3, dtype=np.float64)
+        return CoupledClimateNetwork(
+            GeoGrid(t, lat[:k], lon[:k], silence_level=3),
+            GeoGrid(t, lat[k:], lon[k:], silence_level=3), S,
+            threshold=threshold, link_density=link_density,
+            non_local=non_local, directed=directed, silence_level=3)
     return ClimateNetwork(grid, S, threshold=threshold,
                           link_density=link_density, non_local=non_local,
                           directed=directed, silence_level=3)
